@@ -206,3 +206,51 @@ func init() {
 	register(&Scenario{Prop: "C01", Name: "c01/next-to-abandoned-calls", Quick: []Bound{{1, 0}}, Thorough: []Bound{{3, 0}}, Body: c19Body(1), OnlyKeys: []string{"C01/", "panic/", "livelock/"}, BudgetQ: 20})
 	register(&Scenario{Prop: "C19", Name: "c19/2abandoned", Quick: []Bound{{1, 0}}, Thorough: []Bound{{2, 0}}, Body: c19Body(2)})
 }
+
+// the usual shape of a caller: CallWithContext fails with the context's error and the same
+// goroutine at once issues its next call.  The cancellation races with the arrival of the
+// abandoned call's response, so the next call can be handed objects (Call, buffers) that the
+// reader is still finishing the abandoned call with.
+func c01NextAfterAbandon(so srvOpts, co cliOpts) func(x *X) {
+	return func(x *X) {
+		nextForm := []int{formCall, formGo, formCallCtx}[x.Choose(3)]
+		first := x.Choose(2) // which of the cancellation and the response is under way first
+		f := newFixture(so, co)
+		ab := newUcall(0x41, fGate, 24, formCallCtx)
+		ab.hctx = newCtx(nil)
+		next := newUcall(0x61, fGate, 37, nextForm)
+		next2 := newUcall(0x62, 0, 24, formCall)
+		vs.GoNamed("caller", func() {
+			ab.issue(f.conn)
+			next.issue(f.conn)
+			next2.issue(f.conn)
+		})
+		vs.QuiesceKeep()
+		if first == 0 {
+			vs.GoNamed("canceller", func() { ab.hctx.cancel(context.Canceled) })
+			vs.GoNamed("opener", func() { f.w.open(0x41) })
+		} else {
+			vs.GoNamed("opener", func() { f.w.open(0x41) })
+			vs.GoNamed("canceller", func() { ab.hctx.cancel(context.Canceled) })
+		}
+		vs.QuiesceKeep()
+		f.w.open(0x61)
+		vs.Quiesce()
+		if !ab.ret || !next.ret || !next2.ret {
+			x.Fail("C01/call-never-completes/after-abandoned-call", "abandoned call returned=%v, the caller's next calls returned=%v,%v", ab.ret, next.ret, next2.ret)
+		}
+		out := c01Check(x, []*ucall{next, next2}, "after-abandoned-call")
+		if ab.err == nil {
+			out += c01Check(x, []*ucall{ab}, "abandoned-call-answered-in-time")
+		}
+		x.Outcome("form=%d first=%d ab=%s %s", nextForm, first, errStr(ab.err), out)
+		f.conn.Close()
+		vs.Quiesce()
+	}
+}
+
+func init() {
+	register(&Scenario{Prop: "C01", Name: "c01/caller-continues-after-abandoned-call", Quick: []Bound{{1, 0}, {2, 0}}, Thorough: []Bound{{3, 0}}, Body: c01NextAfterAbandon(srvOpts{bufSize: 64}, cliOpts{bufSize: 64}), OnlyKeys: []string{"C01/", "panic/", "livelock/", "hang/"}})
+	register(&Scenario{Prop: "C01", Name: "c01/caller-continues-after-abandoned-call-yieldcodec", Quick: []Bound{{1, 0}, {2, 0}}, Thorough: []Bound{{3, 0}}, Body: c01NextAfterAbandon(srvOpts{bufSize: 64, codec: yieldBytesCodec}, cliOpts{bufSize: 64}), OnlyKeys: []string{"C01/", "panic/", "livelock/", "hang/"}})
+	register(&Scenario{Prop: "C01", Name: "c01/caller-continues-after-abandoned-call-pipelined", Quick: []Bound{{1, 0}, {2, 0}}, Thorough: []Bound{{3, 0}}, Body: c01NextAfterAbandon(srvOpts{bufSize: 64, codec: yieldBytesCodec}, cliOpts{bufSize: 64, pipelining: true}), OnlyKeys: []string{"C01/", "panic/", "livelock/", "hang/"}})
+}
